@@ -1,6 +1,7 @@
 (* C19 - Faucets: never on mainnet, and at most once anywhere.
    Pinned statements only; proofs in STF/Proofs/Faucet.v. *)
-From MelVerif Require Import STF.Model STF.Proofs.Faucet.
+From MelVerif Require Import STF.Model STF.Proofs.Faucet STF.Proofs.HashFacts STF.Proofs.SealCounts STF.Proofs.History
+  STF.Proofs.FaucetHistory STF.Proofs.Witness STF.Proofs.Witness5.
 Open Scope N_scope.
 
 (* on mainnet an accepted batch contains no faucet other than the grandfathered hash *)
@@ -32,3 +33,60 @@ Theorem C19_marker_persists : forall SO s lh txs s' k,
   is_Some (s_coins s !! k) -> is_Some (s_coins s' !! k).
 Proof. exact unspent_key_survives. Qed.
 Print Assumptions C19_marker_persists.
+
+(* ---- "at most once anywhere": whole histories ([hstep], [hist_all]: see Properties/C20.v).
+   [Dead s k]: the coin tree has, at id k, a coin locked by the covenant hash 0 (which no covenant hashes to). *)
+Theorem C19_dead_def : forall s k, Dead s k <-> exists c, s_coins s !! k = Some c /\ cd_covhash (c_data c) = 0.
+Proof. exact dead_def. Qed.
+Print Assumptions C19_dead_def.
+
+(* the assumptions about the marker id m along a history: no transaction has the hash m or lists a covenant whose
+   hash is the zero address, and no proposer-reward id equals m (m is a keyed hash of the faucet's hash) *)
+Theorem C19_apart_def : forall SO m s o,
+  apart SO m s o <->
+  match o with
+  | HBatch lh txs => forall t, In t txs -> t_hash t <> m /\ ~ In 0 (t_covhashes t)
+  | HBlock a hdr => so_reward_id SO (s_height s) <> m
+  end.
+Proof. exact apart_def. Qed.
+Print Assumptions C19_apart_def.
+Theorem C19_hist_apart_def : forall SO m s ops,
+  hist_apart SO m s ops <-> match ops with [] => True | o :: r => apart SO m s o /\ hist_apart SO m (hstep SO s o) r end.
+Proof. exact hist_apart_def. Qed.
+Print Assumptions C19_hist_apart_def.
+
+(* an accepted faucet leaves its marker, locked by the covenant hash 0 *)
+Theorem C19_marker_is_unspendable : forall SO s lh txs s' t,
+  apply_tx_batch SO s lh txs = Ok s' -> HashOK SO s txs ->
+  In t txs -> t_kind t = KFaucet -> is_bug_tx t = false ->
+  Dead s' (coin_key (so_faucet_marker SO (t_hash t)) 0).
+Proof. exact accepted_faucet_marker_dead. Qed.
+Print Assumptions C19_marker_is_unspendable.
+
+(* the marker stays through every later batch and block *)
+Theorem C19_marker_stays : forall SO m ops s,
+  Dead s (coin_key m 0) -> (forall t, In t (sorted_txs s) -> t_hash t <> m) -> hist_apart SO m s ops ->
+  Dead (fold_left (hstep SO) ops s) (coin_key m 0).
+Proof. exact marker_stays. Qed.
+Print Assumptions C19_marker_stays.
+
+(* so no later state of any history accepts a faucet with the same hash *)
+Theorem C19_at_most_once_anywhere : forall SO s lh1 txs1 s1 t ops lh2 txs2 t2 s2,
+  apply_tx_batch SO s lh1 txs1 = Ok s1 -> HashOK SO s txs1 ->
+  In t txs1 -> t_kind t = KFaucet -> is_bug_tx t = false ->
+  (forall t', In t' (sorted_txs s1) -> t_hash t' <> so_faucet_marker SO (t_hash t)) ->
+  hist_apart SO (so_faucet_marker SO (t_hash t)) s1 ops ->
+  In t2 txs2 -> t_kind t2 = KFaucet -> t_hash t2 = t_hash t ->
+  apply_tx_batch SO (fold_left (hstep SO) ops s1) lh2 txs2 = Ok s2 -> False.
+Proof. exact faucet_at_most_once. Qed.
+Print Assumptions C19_at_most_once_anywhere.
+
+(* non-vacuity: on the concrete history of STF/Proofs/Witness5.v the assumptions hold, the replay of the faucet
+   with hash 11 is refused one block later, and a new faucet is accepted there *)
+Example C19_history_witness :
+  exists s1, apply_tx_batch w_oracle w_state w_header w_batch = Ok s1 /\
+    NoM (so_faucet_marker w_oracle (t_hash w_f1)) s1 /\
+    hist_apart w_oracle (so_faucet_marker w_oracle (t_hash w_f1)) s1 w_later /\
+    (exists e, apply_tx_batch w_oracle (fold_left (hstep w_oracle) w_later s1) w_header [w_f1] = Reject e) /\
+    (exists s2, apply_tx_batch w_oracle (fold_left (hstep w_oracle) w_later s1) w_header [w_f4] = Ok s2).
+Proof. exact w_faucet_once. Qed.
